@@ -16,10 +16,27 @@ From Coq Require Import Reals Lra.
    cover, timers, last command) as it was; only the receive buffer is emptied.  All seven commands,
    any arguments, any state. *)
 Theorem C20_bad_changes_nothing : forall T (ops : numops T) orc cf s e b s',
-  replies_distinct cf = true ->
+  pt_law ops cf -> replies_distinct cf = true ->
   parse ops orc cf s e b = (s', OReply (c_bad cf ++ crlf)) -> dev s' = dev s /\ s_msg s' = [].
 Proof. exact @parse_bad. Qed.
 Print Assumptions C20_bad_changes_nothing.
+
+(* [pt_law]: `start + 0 * program_track_timegap` is not before `now` when `start` is not — the only
+   arithmetic fact the theorem needs (a PROGRAMTRACK that starts a new trajectory re-initialises the
+   bookkeeping BEFORE its second past-check; by this law that check cannot fail for point 0).  It holds
+   for the bit-exact binary64 instance and for the reals, on the generated time gap: *)
+Theorem C20_pt_law_binary64 : forall tk, pt_law fops (fcfg tk).
+Proof. exact f_pt_law. Qed.
+Print Assumptions C20_pt_law_binary64.
+Theorem C20_pt_law_real : forall tk, pt_law rops (rcfg tk).
+Proof. exact r_pt_law. Qed.
+Print Assumptions C20_pt_law_real.
+
+(* hence, for the binary64 model of the shipped simulator, without hypotheses *)
+Theorem C20_bad_changes_nothing_binary64 : forall orc tk s e b s',
+  parse fops orc (fcfg tk) s e b = (s', OReply (c_bad (fcfg tk) ++ crlf)) -> dev s' = dev s /\ s_msg s' = [].
+Proof. intros orc tk s e b s'. exact (parse_bad fops orc (fcfg tk) s e b s' (f_pt_law tk) (gen_replies_distinct F f_of_bits tk)). Qed.
+Print Assumptions C20_bad_changes_nothing_binary64.
 
 Theorem C20_preset_bad_changes_nothing : forall T (ops : numops T) orc cf s e args s',
   h_preset ops orc cf s e args = (s', RBad) -> s' = s.
@@ -200,7 +217,7 @@ Definition ex_orc : oracles F :=
                               else if zlist_eqb tok [57; 57; 57; 57] then Some (f_of_bits 4666722622711529472)
                               else None)
                   (fun _ => None) (fun _ => [63]).
-Definition ex_env : env F := mk_env 0 (f_of_bits 4652007308841189376) [] [] false.
+Definition ex_env : env F := mk_env 0 (f_of_bits 4652007308841189376) [] [] true.
 
 (* PRESET=M3R,50 is accepted on the initial state, PRESET=M3R,nan and PRESET=M3R,9999 are refused *)
 Example C20_ex_preset :
